@@ -12,6 +12,7 @@ import (
 	"github.com/tjfoc/gmsm/gmtls"
 
 	"verif/mc/harness"
+	"verif/mc/props/c07"
 	"verif/mc/props/pu"
 	"verif/mc/ref/gmrec"
 	"verif/mc/ref/gmref"
@@ -904,7 +905,7 @@ func (s *seedStream) Read(p []byte) (int, error) {
 var Prop = &harness.Prop{
 	ID:          "C06",
 	Level:       "model_checking",
-	Rule:        "configuration space enumerated as a product: server mode {GMSSL-only, auto-switch, TLS-only, Go crypto/tls server} x client {library GMSSL client, library TLS client, Go crypto/tls client} x client/server suite lists (9 each incl. ECDHE-only and mixed orders) x PreferServerCipherSuites x 5 ClientAuth policies x client certificate {absent, trusted, untrusted} x certificates static / callbacks x tickets on/off x TLS versions {default, 1.0, 1.1, 1.2} x {ECDSA, RSA} server certificate; each configuration runs real endpoints over the deterministic wire; a 60-line negotiation model predicts complete/must-fail, version and suite; both ends' ConnectionState, exported keying material, peer certificates and delivered bytes are compared; every captured GMSSL session is decoded by an independent GM/T 0024 record/PRF/Finished implementation (master secret re-derived from the pre-master secret decrypted with the reference SM2). Active reference peer: the library in each role against gmref (an independent endpoint with a GM/T 0024 profile and a TLS 1.2 RSA-key-exchange profile) for both suites of each profile x GMSSL-only/auto-switch x 5 ClientAuth policies x client certificate present/absent x the peer's handshake messages cut into records of 1, 7, 100 bytes or unfragmented; both complete exactly when the policy allows, gmref verifies the library's ServerKeyExchange / CertificateVerify signatures and Finished, 3 KB / 70 KB payloads arrive intact. Payload sizes 2^k-72..2^k+8 (k = 9..14) in each direction between the library and the reference peer. TLS suite matrix: each of the 22 standard suite constants (20 implemented; 0xc013 and 0xc027 have no table entry and must simply fail) pinned on both sides x server version cap x client version cap (1.0/1.1/1.2) x client authentication x {library/library, crypto/tls client, crypto/tls server}: 1.2-only suites must fail on both sides below 1.2, everything else completes with exactly that suite and version. Seed sweeps: the same configuration under 1536 (thorough 6144) deterministic random streams for TLS 1.2 ECDHE P-256 between two library endpoints and a quarter of that against crypto/tls in each role and for GMSSL against the reference peer in each role, so that value-dependent steps of the key exchange (coordinates with leading zero bytes, about 1 in 256) occur several times. Long connections: 600 small writes in each direction (more than 512 protected records per direction) for both GMSSL suites (independently decoded) and for TLS 1.2 / TLS 1.0 against crypto/tls in each role. Data phase: all write sequences up to the depth over 8 sizes x 2 directions with reader buffers {1,7,4096}. states = distinct configurations; transitions = sessions. Added dimensions: every scenario with the library Configs as built / through Config.Clone() / server through GetConfigForClient->Clone(); a reflective unit comparing every exported Config field with its clone; ways of supplying the client certificate (none, one, several chains, leaf or leaf+intermediate, Leaf pre-parsed, callback) x 4 server pools x 5 policies against a symbolic issuer model (library and crypto/tls servers); server certificates issued by the root or an intermediate (sent with either certificate or not, static or callbacks) x 3 client pools; server certificate chosen by requested name (NameToCertificate built/explicit, wildcard, RSA+ECDSA, GetCertificate fall-through; library and crypto/tls clients); key pairs loaded from PEM by every loader (key formats x certificate inputs, memory and files, foreign keys refused); Certificate messages of 1..70 KiB; reconnect histories on one Config pair (multi-name TLS server, LRU cache, ticket-key rotations; GMSSL with client authentication and policy changes); data-phase histories also with DynamicRecordSizingDisabled; TLSUnique, server-name and exported keying material (against the reference's RFC 5705 derivation) agree; the reference peer also packs each flight into one record; named-curve negotiation: 17 x 17 CurvePreferences lists (default, every ordered list of one or two of P-256/P-384/P-521/X25519) x TLS 1.0/1.2 (thorough 1.1) x RSA/ECDSA certificate x with/without a non-ECDHE fallback suite x {library/library, crypto/tls client, crypto/tls server}: complete with the ECDHE suite exactly when a curve is shared, fall back when allowed, otherwise fail on both sides. Segmented transport (the library reads 1..13 bytes at a time); applications that never call Handshake; nested sessions (a complete session B to a server with other keys before each record of session A, all pairs of three protocol flavours); reconnect histories with version caps and against one auto-switch server serving a GMSSL and a TLS client with caches. End-of-stream units: per suite and side, peer payload {1,100,16384,40000} x at most {1,5,1000,2^20} bytes per Read, the Read delivering the peer's last bytes returns io.EOF with them (total learnt from a counting run of the same deterministic session); the application must still receive every byte.",
+	Rule:        "configuration space enumerated as a product: server mode {GMSSL-only, auto-switch, TLS-only, Go crypto/tls server} x client {library GMSSL client, library TLS client, Go crypto/tls client} x client/server suite lists (9 each incl. ECDHE-only and mixed orders) x PreferServerCipherSuites x 5 ClientAuth policies x client certificate {absent, trusted, untrusted} x certificates static / callbacks x tickets on/off x TLS versions {default, 1.0, 1.1, 1.2} x {ECDSA, RSA} server certificate; each configuration runs real endpoints over the deterministic wire; a 60-line negotiation model predicts complete/must-fail, version and suite; both ends' ConnectionState, exported keying material, peer certificates and delivered bytes are compared; every captured GMSSL session is decoded by an independent GM/T 0024 record/PRF/Finished implementation (master secret re-derived from the pre-master secret decrypted with the reference SM2). Active reference peer: the library in each role against gmref (an independent endpoint with a GM/T 0024 profile and a TLS 1.2 RSA-key-exchange profile) for both suites of each profile x GMSSL-only/auto-switch x 5 ClientAuth policies x client certificate present/absent x the peer's handshake messages cut into records of 1, 7, 100 bytes or unfragmented; both complete exactly when the policy allows, gmref verifies the library's ServerKeyExchange / CertificateVerify signatures and Finished, 3 KB / 70 KB payloads arrive intact. Payload sizes 2^k-72..2^k+8 (k = 9..14) in each direction between the library and the reference peer. TLS suite matrix: each of the 22 standard suite constants (20 implemented; 0xc013 and 0xc027 have no table entry and must simply fail) pinned on both sides x server version cap x client version cap (1.0/1.1/1.2) x client authentication x {library/library, crypto/tls client, crypto/tls server}: 1.2-only suites must fail on both sides below 1.2, everything else completes with exactly that suite and version. Seed sweeps: the same configuration under 1536 (thorough 6144) deterministic random streams for TLS 1.2 ECDHE P-256 between two library endpoints and a quarter of that against crypto/tls in each role and for GMSSL against the reference peer in each role, so that value-dependent steps of the key exchange (coordinates with leading zero bytes, about 1 in 256) occur several times. Long connections: 600 small writes in each direction (more than 512 protected records per direction) for both GMSSL suites (independently decoded) and for TLS 1.2 / TLS 1.0 against crypto/tls in each role. Data phase: all write sequences up to the depth over 8 sizes x 2 directions with reader buffers {1,7,4096}. states = distinct configurations; transitions = sessions. Added dimensions: every scenario with the library Configs as built / through Config.Clone() / server through GetConfigForClient->Clone(); a reflective unit comparing every exported Config field with its clone; ways of supplying the client certificate (none, one, several chains, leaf or leaf+intermediate, Leaf pre-parsed, callback) x 4 server pools x 5 policies against a symbolic issuer model (library and crypto/tls servers); server certificates issued by the root or an intermediate (sent with either certificate or not, static or callbacks) x 3 client pools; server certificate chosen by requested name (NameToCertificate built/explicit, wildcard, RSA+ECDSA, GetCertificate fall-through; library and crypto/tls clients); key pairs loaded from PEM by every loader (key formats x certificate inputs, memory and files, foreign keys refused); Certificate messages of 1..70 KiB; reconnect histories on one Config pair (multi-name TLS server, LRU cache, ticket-key rotations; GMSSL with client authentication and policy changes); data-phase histories also with DynamicRecordSizingDisabled; TLSUnique, server-name and exported keying material (against the reference's RFC 5705 derivation) agree; the reference peer also packs each flight into one record; named-curve negotiation: 17 x 17 CurvePreferences lists (default, every ordered list of one or two of P-256/P-384/P-521/X25519) x TLS 1.0/1.2 (thorough 1.1) x RSA/ECDSA certificate x with/without a non-ECDHE fallback suite x {library/library, crypto/tls client, crypto/tls server}: complete with the ECDHE suite exactly when a curve is shared, fall back when allowed, otherwise fail on both sides. Segmented transport (the library reads 1..13 bytes at a time); applications that never call Handshake; nested sessions (a complete session B to a server with other keys before each record of session A, all pairs of three protocol flavours); reconnect histories with version caps and against one auto-switch server serving a GMSSL and a TLS client with caches. End-of-stream units: per suite and side, peer payload {1,100,16384,40000} x at most {1,5,1000,2^20} bytes per Read, the Read delivering the peer's last bytes returns io.EOF with them (total learnt from a counting run of the same deterministic session); the application must still receive every byte. Temporary transport errors in the middle of records (C07's read-timeout units) also run here for the four suites.",
 	Assumptions: []string{"Go's crypto/tls is the independent implementation for TLS 1.0-1.2 (both roles)", "gmrec (independent decoder) is built on refsm2/3/4; it covers the two ECC suites", "the ECDHE-SM2 suites are not implemented by the library: the model never predicts them as an outcome"},
 	Bounds: func(tier string) string {
 		if tier == "thorough" {
@@ -930,6 +931,8 @@ var Prop = &harness.Prop{
 			u = append(u, refInteropUnit(lc, gmref.SuiteAESCBC), refInteropUnit(lc, gmref.SuiteAESGCM), refSizesUnit(lc, gmref.SuiteAESCBC), refSizesUnit(lc, gmref.SuiteAESGCM))
 			u = append(u, segmentedTransportUnit(cbc, lc), segmentedTransportUnit(gcm, lc), segmentedTransportUnit(gmref.SuiteAESCBC, lc), segmentedTransportUnit(gmref.SuiteAESGCM, lc))
 			u = append(u, eofWithDataUnit(cbc, lc), eofWithDataUnit(gcm, lc), eofWithDataUnit(gmref.SuiteAESCBC, lc), eofWithDataUnit(gmref.SuiteAESGCM, lc))
+			// temporary transport errors in the middle of records (shared with C07)
+			u = append(u, c07.ReadTimeoutUnit(cbc, lc), c07.ReadTimeoutUnit(gcm, lc), c07.ReadTimeoutUnit(gmref.SuiteAESCBC, lc), c07.ReadTimeoutUnit(gmref.SuiteAESGCM, lc))
 		}
 		for k := 0; k < 6; k++ {
 			u = append(u, manyRecordsUnit(k))
